@@ -21,6 +21,7 @@ RULE = ("well-formed server streams of 5..80 def*/set*/delProperty/message/ping/
 ASSUMPTIONS = ["messages stay below the control connection's 2048-character threshold", "BLOB sizes in the stream are consistent with their payloads"]
 REQUIRED_EVENTS = ["streams", "messages_applied", "views_compared", "wire_mode_streams", "direct_mode_streams", "snoop_mode_streams",
                    "whole_device_deletions", "redefinitions", "empty_blob_payloads"]
+QUICK_SHARDS = 4
 FRAGS = ["whole", "1", "random", "small", 1024]
 
 
@@ -134,7 +135,7 @@ def one_case(ctx, case):
 
 
 def run(ctx):
-    n = 500 if not ctx.thorough else 60000
+    n = 1500 if not ctx.thorough else 60000
     modes = ["wire", "wire", "wire-blobs", "direct", "snoop"]
     for i in range(n):
         if not ctx.mine(i):
